@@ -479,10 +479,12 @@ def run(ctx):
         rf = os.path.join(vlib.CACHE, "c18-replay-%d.txt" % os.getpid())
         open(rf, "w").write(replay_prog + "\n")
         corpus = [rf]
-    # message fragments of the previous translator run (refreshed below; the harness has built-in defaults)
+    # literal fragments of LayoutError's Display arms as they are in the source now (the harness has built-in defaults)
     needles = os.path.join(vlib.CACHE, "c18-needles-%d.txt" % os.getpid())
     try:
-        fr = json.load(open(side_path("side"))).get("fragments", {})
+        import importlib
+        ex = importlib.import_module("extractors.c18")
+        fr = ex.message_fragments(ex.strip_comments_keep_strings(ex.rd("air/src/layout.rs")))
     except Exception:
         fr = {}
     open(needles, "w").write("".join(f"{k}\t{v}\n" for k, v in fr.items()))
